@@ -92,7 +92,9 @@ def run(ctx):
         if i % 9 == 4:
             # a descriptor whose names contain x-infixed and colliding entries
             nd = r.choice([2, 3])
-            names = ["density"] + ["velocity_" + c for c in "xyz"[:nd]] + ["B_" + c + "_left" for c in "xyz"[:nd]] + ["density_max", "xray_flux"]
+            names = ["density"] + ["velocity_" + c for c in "xyz"[:nd]] + ["B_" + c + "_left" for c in "xyz"[:nd]] + ["density_max", "xray_flux"] + (
+                # component letter followed by another x later in the name (momentum_x_flux, B_x_max): every x is a candidate position
+                ["momentum_" + c + "_flux" for c in "xyz"[:nd]] if r.random() < 0.6 else ["B_" + c + "_max" for c in "xyz"[:nd]])
             kw = {"ndim": nd, "hydro_vars": names, "exact": False}
             exact = False
         out = ramses.gen_output(r, max_octs=30, with_part=True if i % 3 == 0 else None, **({"exact": exact} | kw))
@@ -163,7 +165,7 @@ def run(ctx):
     out_.distribution = {"request_kinds": dist}
     out_.rule = ("outputs as in C01 (plus particles and sinks) x requests: groups switched off with False, group lists, random variable "
                  "lists over the amr/hydro/grav/rt/part descriptors (shuffled), partial component sets, descriptors with x-infixed names "
-                 "(B_x_left, density_max, xray_flux). Each subset load is compared with the model, with the projection of a full load of "
+                 "(B_x_left, density_max, xray_flux, momentum_x_flux, B_x_max). Each subset load is compared with the model, with the projection of a full load of "
                  "the same files by the real loader (identical arrays and units), and with the Spec. non-trivial = a non-empty request; "
                  "distinct by case hash")
     return out_
